@@ -224,6 +224,10 @@ func (tr *tokenReader) skipFollowingWhitespace() {
 		b, err := tr.readByte()
 		if err != nil {
 			// nothing was read (end of input), so there is nothing to put back
+			if err != io.EOF {
+				// a failing reader is not the end of the input, even if it recovers afterwards
+				tr.addError(err)
+			}
 			return
 		}
 		switch b {
